@@ -17,6 +17,15 @@ class CallMixin:
                 r = self.special_builtin(f.id, node, st)
                 if r is not None:
                     return r
+        if isinstance(f, ast.Attribute) and f.attr in T.ARR_UNSHARE_METHODS and not node.args:
+            recv = self.ev(f.value, st)
+            if recv.kinds & {"ma", "nd", "any"} and not self.classes_of(recv):
+                # x.unshare_mask(): never changes caller visible content.  If x is known to be a
+                # new array object (view created by np.ma.array / slicing / reshape ...) its mask
+                # is private afterwards; if x may be the caller's own object nothing can be said
+                if isinstance(f.value, ast.Name) and f.value.id in st.env and recv.ident is False:
+                    st.env[f.value.id] = recv.replace(msh=frozenset())
+                return NONE
         fav = self.ev(f, st)
         ca = self.eval_args(node, st)
         return self.call_av(fav, ca, node, st)
@@ -275,7 +284,8 @@ class CallMixin:
         if name == "filled":
             return join(AV(("nd",), recv.orig), self.fresh(node, ("nd",), st=st))
         if name in T.ARR_VIEW_METHODS:
-            return AV(k, recv.orig)
+            return AV(k, recv.orig, msh=recv.msh,
+                      ident=False if name in T.ARR_NEWOBJ_VIEW_METHODS else None)
         if name == "tolist":
             return self.fresh(node, ("list", "scalar"), elem=SCALAR, st=st)
         if name in ("item", "any", "all", "__len__", "tobytes", "tostring", "argmin", "argmax",
@@ -417,13 +427,13 @@ class CallMixin:
         return AV(("obj",), (self.label(node),))
 
     # ------------------------------------------------------------------ numpy
-    def _alias_arg(self, a, node, st, kinds):
+    def _alias_arg(self, a, node, st, kinds, newobj=False):
         """result of a view-returning function applied to argument a"""
         if a is None:
             return BOTTOM
         parts = []
         if a.kinds & ARRAYISH:
-            parts.append(AV(kinds, a.orig))
+            parts.append(AV(kinds, a.orig, msh=a.msh, ident=False if newobj else None))
         if (a.kinds - {"nd", "ma"}) or not a.kinds:
             parts.append(self.fresh(node, kinds, st=st))
         return join_all(parts)
@@ -469,7 +479,8 @@ class CallMixin:
                 return self.fresh(node, ("list", "tuple"), elem=el, st=st, tag="m")
             if copies is True:
                 return self.fresh(node, kinds, st=st)
-            parts = [self._alias_arg(ca.get(i, kw), node, st, kinds) for i, kw in specs]
+            parts = [self._alias_arg(ca.get(i, kw), node, st, kinds, newobj=name in T.NP_NEWOBJ_VIEW)
+                     for i, kw in specs]
             if copies is None:
                 parts.append(self.fresh(node, kinds, st=st))
             r = join_all(parts)
@@ -484,8 +495,13 @@ class CallMixin:
                 return self.fresh(node, ("list",), elem=join_all(
                     [self._alias_arg(ca.get(i, kw), node, st, kinds) for i, kw in specs
                      if ca.get(i, kw) is not None]), st=st, tag="m")
-            parts = [self._alias_arg(ca.get(i, kw), node, st, kinds) for i, kw in specs
-                     if ca.get(i, kw) is not None]
+            if base in ("getmask", "getmaskarray"):
+                a0 = ca.get(0, None)
+                if a0 is not None:       # the mask buffer (or a fresh all-False array)
+                    return join(AV(("nd",), a0.mask_orig if a0.kinds & ARRAYISH else ()),
+                                self.fresh(node, ("nd",), st=st))
+            parts = [self._alias_arg(ca.get(i, kw), node, st, kinds, newobj=name in T.NP_NEWOBJ_VIEW)
+                     for i, kw in specs if ca.get(i, kw) is not None]
             if any(s for _, s in ca.pos):
                 parts += [self._alias_arg(a.element(), node, st, kinds) for a, s in ca.pos if s]
             r = join_all(parts)
